@@ -1,0 +1,53 @@
+//go:build verif
+
+// Verification-only read accessors (build tag `verif`); used by /verif harnesses.
+// Add-only: nothing here changes the behaviour of the package.
+package storage
+
+import "github.com/projectcalico/calico/goldmane/pkg/types"
+
+// VerifBucket is a read-only copy of one AggregationBucket.
+type VerifBucket struct {
+	Start, End int64
+	Pushed     bool
+	Keys       []types.FlowKey
+}
+
+// VerifWindow is a read-only copy of one DiachronicFlow window.
+type VerifWindow struct {
+	Start, End int64
+	PacketsIn  int64
+}
+
+func (r *BucketRing) VerifHead() int { return r.headIndex }
+
+func (r *BucketRing) VerifBuckets() []VerifBucket {
+	out := make([]VerifBucket, len(r.buckets))
+	for i, b := range r.buckets {
+		vb := VerifBucket{Start: b.StartTime, End: b.EndTime, Pushed: b.pushed}
+		if b.Flows != nil {
+			for d := range b.Flows.All() {
+				vb.Keys = append(vb.Keys, d.Key)
+			}
+		}
+		out[i] = vb
+	}
+	return out
+}
+
+func (r *BucketRing) VerifWindows() map[types.FlowKey][]VerifWindow {
+	out := map[types.FlowKey][]VerifWindow{}
+	for k, d := range r.diachronics {
+		ws := make([]VerifWindow, 0, len(d.Windows))
+		for _, w := range d.Windows {
+			ws = append(ws, VerifWindow{Start: w.start, End: w.end, PacketsIn: w.PacketsIn})
+		}
+		out[k] = ws
+	}
+	return out
+}
+
+func (r *BucketRing) VerifFindBucket(t int64) int {
+	i, _ := r.findBucket(t)
+	return i
+}
